@@ -67,7 +67,7 @@ def hq(name, hf, mode, L, extra=(), tier="quick", desc=""):
 
 def mq(name, hf, mode, defs, unwind, tier="quick", desc="", maxcalls=6):
     return Q(name, "C13_hmac.c", units=HUNITS[hf] + HMAC + CODEC,
-             defs=["-DHF=%d" % hf, "-DMODE=%d" % mode, "-DC13_MAXCALLS=%d" % maxcalls] + list(defs),
+             defs=["-DHF=%d" % hf, "-DMODE=%d" % mode, "-DC13_MAXCALLS=%d" % maxcalls, "-DC13_NFRESH=%d" % (maxcalls + 6)] + list(defs),
              unwind=unwind, tier=tier, timeout=tmo(tier), desc=desc + EVERY, flags=FS0, objbits=12)
 
 
@@ -158,7 +158,7 @@ def hmac_queries():
                                    (2, 20, 70, 12, "quick"), (4, 32, 56, 0, "quick"), (4, 100, 20, 40, "quick"), (5, 129, 20, 0, "quick"), (5, 128, 112, 24, "quick"),
                                    (2, 64, 0, 0, "thorough"), (2, 65, 137, 0, "thorough"), (3, 65, 20, 0, "thorough"), (6, 200, 130, 0, "thorough"), (6, 64, 20, 0, "thorough")):
         qs.append(mq("hmac-%s-K%d-M%d-O%d" % (HNAME[hf], kl, ml, ol), hf, 1, ["-DKL=%d" % kl, "-DML=%d" % ml, "-DOL=%d" % ol], unwind=420, tier=tier,
-                     desc=dk % (HNAME[hf], kl, HBS[hf], ml, ol), maxcalls=10))
+                     desc=dk % (HNAME[hf], kl, HBS[hf], ml, ol), maxcalls=16))
     dc = "br_hmac_outCT(%s; %d bytes already injected; min %d, max %d) for every len in %d..%d and every data[0..max), every key state: == RFC 2104 completion over data[0..len) == br_hmac_update+br_hmac_out; returned length (requested %d); context not modified"
 
     def ct(hf, pl, mn, mx, lo, hi, tier, ol=0):
@@ -187,7 +187,7 @@ def hmac_queries():
         ct(2, 13, 0, 130, lo, hi, "thorough")
     for (lo, hi) in ranges(0, 70, 6):
         ct(4, 5, 0, 70, lo, hi, "thorough")
-    for (lo, hi) in ranges(60, 140, 4):
+    for (lo, hi) in ranges(60, 63, 2) + ranges(90, 140, 2):
         ct(5, 13, 60, 140, lo, hi, "thorough")
     for (lo, hi) in ranges(70, 130, 6):
         ct(1, 0, 70, 130, lo, hi, "thorough")
